@@ -115,6 +115,12 @@ func (gc *primaryGC) run(interval, timeLimit time.Duration) {
 func (gc *primaryGC) gc(ctx context.Context, lowUsePercent int64, timeLimit time.Duration) (int64, error) {
 	gc.reclaimed = 0
 	affectedSet, err := processFreeList(ctx, gc.freeList, gc.primary.basePath, gc.primary.maxFileSize)
+	// Remove all files in the affected set from the visited set. Do this even
+	// if the freelist was not completely processed, since records in these
+	// files were already marked as deleted.
+	for fileNum := range affectedSet {
+		delete(gc.visited, fileNum)
+	}
 	if err != nil {
 		if err == context.DeadlineExceeded {
 			return gc.reclaimed, err
@@ -123,10 +129,6 @@ func (gc *primaryGC) gc(ctx context.Context, lowUsePercent int64, timeLimit time
 	}
 
 	vhook.Point("prigc.afterFreeList")
-	// Remove all files in the affected set from the visited set.
-	for fileNum := range affectedSet {
-		delete(gc.visited, fileNum)
-	}
 
 	header, err := readHeader(gc.primary.headerPath)
 	if err != nil {
@@ -403,7 +405,7 @@ func processFreeList(ctx context.Context, freeList *freelist.FreeList, basePath 
 
 		for {
 			if ctx.Err() != nil {
-				return nil, ctx.Err()
+				return affectedSet, ctx.Err()
 			}
 			free, err := flIter.Next()
 			if err != nil {
